@@ -357,6 +357,8 @@ def check(chk, repo):
     check_row_ids(chk, rep, repo)
     check_builders(chk, rep, repo)
     check_file_agreement(chk, rep, repo)
+    from ..common import check_model_premises
+    check_model_premises(rep, repo)
     chk.undecided += ["bit-equality of forests / predictions of the two runs (a run-time fact that follows from the above)"]
     chk.assumptions += ["np.savetxt's default '%.18e' and np.loadtxt round-trip float64 exactly",
                         "the index arrays passed by the caller identify rows of the matrix file (the property's premise)"]
